@@ -567,3 +567,63 @@ def resolve_cond_source(fn, defs, s):
             continue
         break
     return s
+
+
+# ---------------------------------------------------------------------------------------------
+# field access classification
+# ---------------------------------------------------------------------------------------------
+ASSIGN_OPS = ('=', '+=', '-=', '*=', '/=', '|=', '&=', '^=', '<<=', '>>=', '%=')
+
+
+def access_kind(fn, s):
+    """how the lvalue designated by node s is used: 'read', 'write', 'rmw', 'call:<name>', 'addr', 'other'"""
+    pm = fn.parent_map()
+    cur = s
+    for _ in range(12):
+        p = pm.get(cur)
+        if p is None:
+            return 'other'
+        pn = fn.nodes[p]
+        k = pn.get('k')
+        if k == 'rd':
+            return 'read'
+        if k == 'binop' and pn['op'] in ASSIGN_OPS and pn['l'] == cur:
+            return 'write'
+        if k == 'unop' and pn['op'] in ('++', '--'):
+            return 'write'
+        if k == 'unop' and pn['op'] == '&':
+            return 'addr'
+        if k == 'call' and pn.get('obj') == cur:
+            op = atomic_op(fn, p)
+            if op:
+                return {'load': 'read', 'store': 'write', 'rmw': 'rmw', 'cas': 'rmw'}.get(op['kind'], 'other')
+            d = fn.callee(p)
+            return 'call:' + (d['n'] if d else '?')
+        if k in ('member', 'index', 'cast'):
+            cur = p
+            continue
+        if k == 'call':
+            return 'arg'
+        return 'other'
+    return 'other'
+
+
+def member_accesses(fn, names, reachable_only=True):
+    """[(pos, s, node, kind)] for member nodes whose field name is in names"""
+    out = []
+    for pos, s, n in fn.stmt_elems(('member',), reachable_only):
+        if n['n'] in names and 'fn' not in n:
+            out.append((pos, s, n, access_kind(fn, s)))
+    return out
+
+
+def full_fence_pred(facts):
+    """element predicate: a seq_cst fence / seq_cst RMW, or a call to a function every path of which contains one"""
+    summ = Summaries(facts, max_depth=3)
+
+    def pred(fn, pos, e):
+        return isinstance(e, int) and is_full_fence(atomic_op(fn, e))
+
+    def elem(fn, pos, e):
+        return summ.elem_must(fn, pos, e, 'fullfence', pred)
+    return elem
